@@ -49,6 +49,9 @@ pub enum AuthorisationMessage {
     ),
     UserForRoom(Uid, Sender<Result<HashSet<Vec<u8>>>>),
     // ValidatePeerNodesRequest(Uid, Vec<Vec<u8>>, Sender<Result<Vec<Vec<u8>>>>),
+    /// verification hook: a copy of the in-memory definition of a room (read only)
+    #[cfg(feature = "verif")]
+    VerifGetRoom(Uid, Sender<Option<Room>>),
 }
 
 pub struct RoomMutationWriteQuery {
@@ -407,6 +410,10 @@ impl AuthorisationService {
             } // AuthorisationMessage::ValidatePeerNodesRequest(room_id, keys, reply) => {
               //     let _ = reply.send(auth.validate_peer_nodes_request(room_id, keys));
               // }
+            #[cfg(feature = "verif")]
+            AuthorisationMessage::VerifGetRoom(room_id, reply) => {
+                let _ = reply.send(auth.rooms.get(&room_id).cloned());
+            }
         }
     }
 
